@@ -424,7 +424,7 @@ fn do_huge(args: &BTreeMap<String, String>) -> i32 {
     let pre: usize = arg(args, "pre", "0").parse().expect("--pre");
     let t0 = std::time::Instant::now();
     let page = 4096usize;
-    let maplen = if what.starts_with("rounds:") { page } else { len };
+    let maplen = if what.starts_with("rounds:") || what.starts_with("alias:") || what.starts_with("accept:") { page } else { len };
     let total = (maplen + page - 1) / page * page + 2 * page;
     // PROT_NONE everywhere, then the data part readable/writable: the slice ends exactly at the trailing guard page
     let base = unsafe { mmap(std::ptr::null_mut(), total, 0, 0x22 | 0x4000, -1, 0) };
@@ -442,20 +442,29 @@ fn do_huge(args: &BTreeMap<String, String>) -> i32 {
         // input only: read-only pages
         assert_eq!(unsafe { mprotect(base.add(page), data_pages, 1) }, 0);
         let prefix = vec![0x5au8; pre];
-        let mut one = new_hash(ty);
-        one.update(&prefix);
-        one.update(slice);
-        let d1 = one.finalize_box();
-        let mut many = new_hash(ty);
-        many.update(&prefix);
-        let zeros = vec![0u8; (1 << 20) - 3];
-        let mut left = len;
-        while left > 0 {
-            let n = left.min(zeros.len());
-            many.update(&zeros[..n]);
-            left -= n;
-        }
-        let d2 = many.finalize_box();
+        // the one call and the pieces on two threads (two independent instances)
+        let (d1, d2) = std::thread::scope(|sc| {
+            let prefix = &prefix;
+            let h1 = sc.spawn(move || {
+                let mut one = new_hash(ty);
+                one.update(prefix);
+                one.update(slice);
+                one.finalize_box()
+            });
+            let h2 = sc.spawn(move || {
+                let mut many = new_hash(ty);
+                many.update(prefix);
+                let zeros = vec![0u8; (1 << 20) - 3];
+                let mut left = len;
+                while left > 0 {
+                    let n = left.min(zeros.len());
+                    many.update(&zeros[..n]);
+                    left -= n;
+                }
+                many.finalize_box()
+            });
+            (h1.join().expect("one-call thread"), h2.join().expect("pieces thread"))
+        });
         ok = d1 == d2;
         if !ok {
             detail = format!("one call {} vs pieces {}", kit::json::hex(&d1), kit::json::hex(&d2));
@@ -522,6 +531,63 @@ fn do_huge(args: &BTreeMap<String, String>) -> i32 {
         ok = refused && pos == Some(want) && still_ok && probe == probe2;
         if !ok {
             detail = format!("refused={} pos={:?} want={} usable={} bytes_equal={}", refused, pos, want, still_ok, probe == probe2);
+        }
+    } else if let Some(kname) = what.strip_prefix("alias:").or_else(|| what.strip_prefix("accept:")) {
+        // A single call over more bytes than the machine has memory (e.g. 2^38 + 4096, more than the whole keystream of the
+        // 32-bit-counter variant; the 64-bit-counter variants must serve it): the slice is one 64 MiB memory object mapped
+        // back to back, so every window of the slice is the same memory and the call XORs all its keystream windows onto it.
+        // The twin XORs the same keystream onto a 64 MiB buffer in window-sized calls.
+        // `accept:` is the same call without the twin: the driver only watches that it is not refused (and stops it).
+        use scen::s1_chacha_stream::Real;
+        extern "C" {
+            fn memfd_create(name: *const u8, flags: u32) -> i32;
+            fn ftruncate(fd: i32, len: i64) -> i32;
+        }
+        let kind = refm::chacha::Kind::from_name(kname).expect("cipher kind");
+        let win = 64usize << 20;
+        let nwin = (len + win - 1) / win;
+        let fd = unsafe { memfd_create(b"alias\0".as_ptr(), 0) };
+        assert!(fd >= 0, "memfd_create failed");
+        assert_eq!(unsafe { ftruncate(fd, win as i64) }, 0);
+        let area = unsafe { mmap(std::ptr::null_mut(), nwin * win + 2 * page, 0, 0x22 | 0x4000, -1, 0) };
+        assert!(!area.is_null() && area as isize != -1, "reserving {} bytes failed", nwin * win);
+        for i in 0..nwin {
+            // MAP_SHARED | MAP_FIXED
+            let p = unsafe { mmap(area.add(page + i * win), win, 3, 0x01 | 0x10, fd, 0) };
+            assert!(p as isize != -1, "window {} could not be mapped", i);
+        }
+        let slice = unsafe { std::slice::from_raw_parts_mut(area.add(page), len) };
+        let key = [0x42u8; 32];
+        let nonce = vec![7u8; kind.nonce_len()];
+        let mut a = Real::new(kind, &key, &nonce);
+        let mut p1 = vec![0u8; pre];
+        a.apply(&mut p1);
+        let served = a.try_apply(slice);
+        if what.starts_with("accept:") {
+            ok = served;
+            if !ok {
+                detail = "the call returned an error".into();
+            }
+        } else {
+            let mut b = Real::new(kind, &key, &nonce);
+            let mut p2 = vec![0u8; pre];
+            b.apply(&mut p2);
+            let mut acc = vec![0u8; win];
+            let mut left = len;
+            while left > 0 {
+                let n = left.min(win);
+                b.apply(&mut acc[..n]);
+                left -= n;
+            }
+            let first_bad = acc.iter().zip(slice[..win.min(len)].iter()).position(|(x, y)| x != y);
+            let (pa, pb) = (a.try_pos(4), b.try_pos(4));
+            let mut t1 = [0u8; 70];
+            let mut t2 = [0u8; 70];
+            let (r1, r2) = (a.try_apply(&mut t1), b.try_apply(&mut t2));
+            ok = served && first_bad.is_none() && pa == pb && pa == Some((pre + len) as u128) && r1 && r2 && t1 == t2;
+            if !ok {
+                detail = format!("served={} first differing byte of the window {:?}; positions {:?} / {:?}; following keystream equal: {}", served, first_bad, pa, pb, t1 == t2);
+            }
         }
     } else if let Some(dr) = what.strip_prefix("rounds:") {
         // a double-round count no sweep can afford (2^31 and more: tens of seconds per block): refill4 against four
